@@ -236,12 +236,35 @@ ConstDisjEntries ==
                                                            pos |-> pos, cons |-> FALSE, spell |-> sp]]
   IN one("const-first", "top") \o one("const-last", "top") \o one("const-first", "optional") \o one("const-last", "optional")
 
+\* a field whose type is a DISJUNCTION OF CONSTANTS (`1 | 2 | *3`, oneOf:[{const: 1}, {const: 2}, {const: 3}] + default): the default
+\* designates one of the constants. Strings (where a member's name and its value coincide in a generator), integers and floats
+\* (where they do not), the default first / in the middle / last, two and three constants; plus a disjunction of a constant with a
+\* reference to a named enum. (Appended at the end of the catalogue: earlier ids are unchanged.)
+KI(i) == TConst(JInt(i))
+KS(s) == TConst(JStr(s))
+KN(n) == TConst(JNum(n))
+ConstUnionLeaves == <<
+  DL("constants-disjunction-integer",        TUnion(<<KI(1), KI(2), KI(3)>>), JInt(3), <<>>),
+  DL("constants-disjunction-integer-first",  TUnion(<<KI(1), KI(2), KI(3)>>), JInt(1), <<>>),
+  DL("constants-disjunction-integer-zero",   TUnion(<<KI(0), KI(5)>>), JInt(0), <<>>),
+  DL("constants-disjunction-integer-2",      TUnion(<<KI(0), KI(5)>>), JInt(5), <<>>),
+  DL("constants-disjunction-integer-negative", TUnion(<<KI(-1), KI(1)>>), JInt(-1), <<>>),
+  DL("constants-disjunction-float",          TUnion(<<KN(15), KN(25)>>), JNum(25), <<>>),
+  DL("constants-disjunction-string",         TUnion(<<KS("auto"), KS("manual")>>), JStr("manual"), <<>>),
+  DL("constants-disjunction-string-cased",   TUnion(<<KS("Auto"), KS("a-b"), KS("1x")>>), JStr("a-b"), <<>>),
+  DL("constants-disjunction-enum-ref",       TUnion(<<TRef("E"), KS("c")>>), JStr("b"), <<DEnum>>),
+  DL("constants-disjunction-enum-ref-const", TUnion(<<TRef("E"), KS("c")>>), JStr("c"), <<DEnum>>)
+>>
+ConstUnionEntries ==
+  [i \in 1..(Len(ConstUnionLeaves) * 2) |-> DEntry(ConstUnionLeaves[((i - 1) \div 2) + 1], DefPositions[((i - 1) % 2) + 1])]
+
 DefCatalogue ==
   DFixedList
   \o [i \in 1..(Len(DefLeaves) * Len(DefPositions)) |->
         DEntry(DefLeaves[((i - 1) \div Len(DefPositions)) + 1], DefPositions[((i - 1) % Len(DefPositions)) + 1])]
   \o DFixedList2
   \o ConstDisjEntries
+  \o ConstUnionEntries
 
 InDef(i)   == i > IdBase /\ (i - IdBase) \in DOMAIN DefCatalogue
 EntryOf(i) == IF InDef(i) THEN DefCatalogue[i - IdBase] ELSE Catalogue[i]
